@@ -439,6 +439,12 @@ class RefBuilder:
             self.ver = u(1)
         elif n == "psub":
             self.sub = u(1)
+        elif n == "tns":
+            self.ns = ""
+        elif n == "tver":
+            self.ver = ""
+        elif n == "tsub":
+            self.sub = ""
         elif n == "rb":
             exp = self.expected()
             if exp[0] == "err":
